@@ -289,6 +289,12 @@ func (g *G) genFaithful(id string) *History {
 	switch g.r.Intn(6) {
 	case 0:
 		rp.Chunked = true
+		if g.chance(0.5) {
+			rp.Trailer = Hdr{{"X-Checksum", "abc123"}}
+			if g.chance(0.3) {
+				rp.Trailer = append(rp.Trailer, [2]string{"X-Other-Trailer", "t 2"})
+			}
+		}
 	case 1:
 		rp.NoCL = true
 	case 2:
